@@ -34,6 +34,23 @@ func c06Plan(tier string, seed uint64) (jobs []rt.Job) {
 		s := rng.Seed48()
 		jobs = append(jobs, rt.Job{ID: fmt.Sprintf("C06/multiconfig/%d", b), Kind: "multiconfig", Cost: 4, Args: map[string]interface{}{"seed": rt.Hex(s[:]), "order": b}})
 	}
+	// tall trees under the leaf seam: index / randomiser / WOTS part of signatures at large indices
+	// (real chains, real OTS addresses) against the reference, authentication path against the seam tree
+	th := []int{12, 16}
+	if tier == "thorough" {
+		th = []int{12, 14, 16, 18, 20}
+	}
+	for _, h := range th {
+		for hf := 0; hf < 3; hf++ {
+			if h > 16 && hf != h/2%3 {
+				continue
+			}
+			s := rng.Seed48()
+			c := XCfg{H: h, HF: hf, Seed: rt.Hex(s[:]), Seam: true}
+			a := c.args()
+			jobs = append(jobs, rt.Job{ID: fmt.Sprintf("C06/%s/seam-prefix", c), Kind: "seam-prefix", Cost: float64(uint(1)<<uint(h)) * 0.0001, Args: a})
+		}
+	}
 	nseeds := 3
 	if tier == "thorough" {
 		nseeds = 4
@@ -95,7 +112,68 @@ func c06Multi(j *rt.Job, seed uint64, r *rt.Rec) {
 	r.Sample(map[string]interface{}{"multiconfig_seed": j.Str("seed")[:16] + "..", "configurations_in_one_process": len(cfgs)})
 }
 
+// c06SeamPrefix: signatures at large indices of tall trees under the leaf seam.
+func c06SeamPrefix(j *rt.Job, seed uint64, r *rt.Rec) {
+	c := cfgFromJob(j)
+	rng := rt.NewRand(seed, j.ID)
+	n := uint32(1) << uint(c.H)
+	c.seam(func() {
+		lib := c.newLib()
+		ref := c.newRef()
+		root := append([]byte(nil), lib.GetRoot()...)
+		if !bytes.Equal(root, ref.Root) {
+			r.Violate("C06/seam-root", "root under the leaf seam differs from the reference tree over the same leaves", jobCase(j), "", "")
+			return
+		}
+		sd := c.seed()
+		sec := xmssref.Expand(sd[:])
+		set := map[uint32]bool{0: true, 1: true, 255: true, 256: true, 257: true, 4095: true, 4096: true, n - 1: true, n - 2: true, n/2 - 1: true, n / 2: true}
+		if n > 65536 {
+			set[65535], set[65536], set[65537] = true, true, true
+		}
+		for len(set) < 40 {
+			set[uint32(rng.Intn(int(n)))] = true
+		}
+		var idxs []uint32
+		for v := range set {
+			if v < n {
+				idxs = append(idxs, v)
+			}
+		}
+		sortU32(idxs)
+		for _, idx := range idxs {
+			if idx > lib.GetIndex() {
+				lib.SetIndex(idx)
+			}
+			if lib.GetIndex() != idx {
+				continue // already passed (consecutive indices are reached by the previous signature)
+			}
+			msg := msgFor(c, idx, "prefix")
+			sig, err := lib.Sign(msg)
+			r.Eval(1)
+			if err != nil {
+				r.Violate("C06/sign-error", "Sign returned an error: "+err.Error(), jobCase(j), "", "")
+				return
+			}
+			exp := append(sec.SignPrefix(xmssref.Hash(c.HF), idx, msg, root), ref.Auth(idx)...)
+			if d := sigDiff(exp, sig); d != "" {
+				r.Violate("C06/sig/tall/"+d, fmt.Sprintf("signature at index %d of a tall tree (leaf seam, real WOTS part) differs from the reference in: %s (%s)", idx, d, c), jobCase(j), rt.Short(exp), rt.Short(sig))
+				return
+			}
+			r.Count("signatures_equal", 1)
+			r.Count("sig_bytes_compared", int64(len(exp)))
+			r.Distinct("tall", c.H, c.HF, idx)
+		}
+		r.Observe("configs", fmt.Sprintf("h=%d/%s/seam-prefix", c.H, hashNames[c.HF]))
+		r.Sample(map[string]interface{}{"cfg": c.String(), "seam": true, "indices": len(idxs), "largest": idxs[len(idxs)-1]})
+	})
+}
+
 func c06Run(j *rt.Job, seed uint64, r *rt.Rec) {
+	if j.Kind == "seam-prefix" {
+		c06SeamPrefix(j, seed, r)
+		return
+	}
 	if j.Kind == "multiconfig" {
 		c06Multi(j, seed, r)
 		return
